@@ -216,16 +216,9 @@ mod lsp {
     absolute_source_path: &Path,
     url: &Url,
   ) -> Option<Vec<String>> {
-    let url_str = url.as_str();
-    let url_protocol_stripped_str = PathBuf::from(if url_str.starts_with("file://") {
-      url_str.chars().skip("file://".len()).collect::<String>()
-    } else {
-      url_str.to_string()
-    });
-    utils::file_path_to_module_reference_parts(
-      absolute_source_path,
-      url_protocol_stripped_str.as_path(),
-    )
+    // The path in a document URI is percent-encoded (spaces, non-ASCII letters, `#`, `?`, ...).
+    let file_path = url.to_file_path().ok()?;
+    utils::file_path_to_module_reference_parts(absolute_source_path, file_path.as_path())
   }
 
   unsafe impl Send for WrappedState {}
@@ -374,7 +367,7 @@ mod lsp {
         .iter()
         .filter_map(|f| Url::parse(&f.uri).ok())
         .filter_map(|uri| {
-          let content = fs::read_to_string(uri.path()).ok()?;
+          let content = fs::read_to_string(uri.to_file_path().ok()?).ok()?;
           Some((
             self.convert_url_to_module_reference_add_if_absent(&mut state.0.heap, &uri)?,
             content,
